@@ -1,9 +1,93 @@
-(* C16 — the BQL lexer tokenizes every input faithfully.  (theorems are added as they are proved) *)
-From Coq Require Import List NArith ZArith.
+(* C16 — the BQL lexer tokenizes every input faithfully.
+   Object: the model coq/Lexer/Lexer.v of bql/lexer/lexer.go (tables regenerated from lexer.go on every run:
+   Gen/LexTablesGen.v).  [lex_with U inp] = (tokens sent on the channel, run loop ended); a token is (kind, start, end)
+   and its text is input[start:end] ([tk_text]).  [U] is the classification of runes (unicode.IsLetter / IsDigit /
+   IsSpace / ToLower); the structural theorems hold for EVERY U, in particular for [go_uni] used by [lex]. *)
+From Coq Require Import List NArith ZArith Lia.
 From Coq.Strings Require Import Byte.
 Import ListNotations.
-From BWLexer Require Import Utf8 Unicode Lexer.
+From BWLexer Require Import Utf8 Unicode Lexer LexerProofs.
 From BWLexer.Gen Require Import LexTablesGen.
+
+(* ---------------------------------------------------------------- termination / channel closed *)
+(* the fuel [fuel_for] = 4 * (number of runes) + 4 that the model passes to the run loop always suffices: the loop
+   reaches state = nil (after which lexer.run closes the channel); OutOfFuel never occurs *)
+Theorem C16_terminates : forall (U : uni) (inp : list byte), snd (lex_with U inp) = true.
+Proof. intros U inp. destruct (lex_with U inp) as [ts fin] eqn:E. exact (proj1 (lex_with_good U inp ts fin E)). Qed.
+Print Assumptions C16_terminates.
+
+(* ---------------------------------------------------------------- ordered, non-overlapping substrings *)
+(* 0 <= s1 <= e1 <= s2 <= e2 <= ... <= |input| *)
+Theorem C16_spans_ordered : forall (U : uni) (inp : list byte),
+  let ts := fst (lex_with U inp) in
+  Forall (fun t => tk_start t <= tk_end t /\ tk_end t <= length inp) ts /\
+  (forall pre a b post, ts = pre ++ a :: b :: post -> tk_end a <= tk_start b).
+Proof.
+  intros U inp. destruct (lex_with U inp) as [ts fin] eqn:E. cbn.
+  destruct (lex_with_good U inp ts fin E) as (_ & O & _). split.
+  - apply ordered_bounds in O. destruct O as [_ O]. eapply Forall_impl; [|exact O]. cbn. intros a Ha. lia.
+  - exact (ordered_adjacent ts 0 (length inp) O).
+Qed.
+Print Assumptions C16_spans_ordered.
+
+(* the text of every token is the substring of the input at its span *)
+Theorem C16_text_is_substring : forall (U : uni) (inp : list byte) (t : token),
+  In t (fst (lex_with U inp)) ->
+  exists before after, inp = before ++ tk_text inp t ++ after /\ length before = tk_start t /\
+                       length (tk_text inp t) = tk_end t - tk_start t.
+Proof.
+  intros U inp t Hin. destruct (C16_spans_ordered U inp) as [B _]. cbn in B.
+  rewrite Forall_forall in B. destruct (B t Hin) as [B1 B2].
+  exists (firstn (tk_start t) inp), (skipn (tk_end t) inp). apply sub_bytes_is_substring; assumption.
+Qed.
+Print Assumptions C16_text_is_substring.
+
+(* ---------------------------------------------------------------- exactly one terminal token, in last position *)
+Theorem C16_one_terminal : forall (U : uni) (inp : list byte),
+  exists pre t, fst (lex_with U inp) = pre ++ [t] /\
+    (tk_kind t = ItemError \/ tk_kind t = ItemEOF) /\
+    Forall (fun x => ~ (tk_kind x = ItemError \/ tk_kind x = ItemEOF)) pre.
+Proof.
+  intros U inp. destruct (lex_with U inp) as [ts fin] eqn:E. cbn.
+  exact (proj2 (proj2 (lex_with_good U inp ts fin E))).
+Qed.
+Print Assumptions C16_one_terminal.
+
+(* every state function that returns nil has emitted exactly one token and it is terminal; one that returns a next
+   state has emitted at most one token and it is not terminal (the invariant behind C16_one_terminal) *)
+Theorem C16_step_terminal : forall (U : uni) (total : nat) (s : state) (l : lx),
+  start l <= pos l -> pos l + wsum (rest l) = total ->
+  match step U s l with
+  | (toks, None, _) => exists k a b, toks = [(k, a, b)] /\ (k = ItemError \/ k = ItemEOF)
+  | (toks, Some _, _) => toks = [] \/ exists k a b, toks = [(k, a, b)] /\ k <> ItemError /\ k <> ItemEOF
+  end.
+Proof.
+  intros U total s l H1 H2. pose proof (step_good U total s l (conj H1 H2)) as G.
+  destruct (step U s l) as [[toks nxt] l']. unfold good in G. destruct G as (_ & _ & G). destruct nxt.
+  - destruct G as [_ [G|(k & a & b & E & _ & _ & _ & N)]]; [now left|right; exists k, a, b; split; [exact E|exact N]].
+  - destruct G as (k & a & b & E & _ & _ & _ & T). exists k, a, b. split; [exact E|exact T].
+Qed.
+Print Assumptions C16_step_terminal.
+
+(* the exported lexer is the instance at go_uni *)
+Theorem C16_lex_structure : forall inp : list byte,
+  lex_out inp = (lex inp, true) /\
+  (exists pre t, lex inp = pre ++ [t] /\ (tk_kind t = ItemError \/ tk_kind t = ItemEOF) /\
+     Forall (fun x => ~ (tk_kind x = ItemError \/ tk_kind x = ItemEOF)) pre) /\
+  Forall (fun t => tk_start t <= tk_end t /\ tk_end t <= length inp) (lex inp).
+Proof.
+  intro inp. split; [|split].
+  - unfold lex. pose proof (C16_terminates go_uni inp) as T. unfold lex_out. destruct (lex_with go_uni inp); cbn in *. now subst.
+  - exact (C16_one_terminal go_uni inp).
+  - exact (proj1 (C16_spans_ordered go_uni inp)).
+Qed.
+Print Assumptions C16_lex_structure.
+
+(* ---------------------------------------------------------------- examples: the statements are about real runs *)
+Example C16_example_select :
+  lex_texts [x73;x65;x6c;x65;x63;x74;x20;x3f;x78;x3b] =
+    [(ItemQuery, [x73;x65;x6c;x65;x63;x74]); (ItemBinding, [x3f;x78]); (ItemSemicolon, [x3b]); (ItemEOF, [])].
+Proof. vm_compute. reflexivity. Qed.
 
 (* known defect reproduced in the model: white space between a filter function name and '(' *)
 Example C16_filter_function_tight_example :
